@@ -17,7 +17,7 @@ from fractions import Fraction
 
 from .. import terms as T
 from ..ivl import IvlModel
-from ..meanci import ConfModel, KINDS, F0, F1, F2, NORMAL, crit, unwrap_ok, SubstPath
+from ..meanci import ConfModel, KINDS, F0, F1, F2, NORMAL, crit, unwrap_ok, SubstPath, nonneg_crit
 from ..nf import Ctx as NF, NotReal
 from ..realmode import Domain, prune, quantile_hook
 from ..statsmodel import by_ref
@@ -167,6 +167,7 @@ def producer(chk, facts, nf, im, cm, fn, method, label, sfx, subst=None, make_ar
                 exp_lo = T.op('sub', centre, span) if kind in ('two', 'upper') else F0
                 exp_hi = T.op('add', centre, span) if kind in ('two', 'lower') else F1
                 try:
+                  with nonneg_crit(nf, z, kind == 'two'):
                     if not nf.term_equal(lo, exp_lo):
                         probs.append('lower bound is %s' % T.show(lo)[:200])
                     if not nf.term_equal(hi, exp_hi):
